@@ -400,6 +400,9 @@ def run(tier):
     rep.floor("strings folded through the literal-block predicate", literalblock.representable(rep, F), 400)
     rep.floor("line-feed-to-text segments of the literal-block loop", literalblock.indented(rep, F), 5)
     rep.floor("calls of emit_literal_block", literalblock.not_for_keys(rep, F), 1)
+    # the amount of indentation: level x best_indent blanks
+    from . import indentwidth
+    rep.extra["indentation_width_cases"] = indentwidth.check(rep, F)
     # every scalar key is emitted as an implicit key: one of exactly 1024 characters must still be read back as a key
     from . import keylimit
     keylimit.check(rep, F, rule="emitted-key-within-limit")
